@@ -1113,8 +1113,15 @@ func (ro *RedisOutput) sendCmdsBatch(replayWait usync.WaitCloser, conn client.Re
 
 	sendFunc := func(shouldInTransaction, shouldUpdateCP bool, lastOffset int64) error {
 		maxRetries := 0
+		// a cluster batcher drops multi/exec : the batch is a plain pipeline, and a node executes the commands that
+		// follow a refused one (MOVED, ASK, OOM ...). The checkpoint must never pass a refused command, so it is sent
+		// in a batch of its own, once every command of the queue has been acknowledged
+		cpAlone := shouldUpdateCP && !isPipeline && ro.cfg.Redis.IsCluster()
 		for {
-			err := sendFuncOnce(shouldInTransaction, shouldUpdateCP, lastOffset)
+			err := sendFuncOnce(shouldInTransaction, shouldUpdateCP && !cpAlone, lastOffset)
+			if err == nil && cpAlone {
+				err = sendFuncOnce(shouldInTransaction, true, lastOffset)
+			}
 			if err == nil {
 				return err
 			}
